@@ -330,7 +330,20 @@ func runMethod(o *Out, spec *Spec, r *Ref, m *MethodSpec) {
 			args[a] = cv
 			r.Ctx[ft.In(a)] = cv
 		}
+		ctxSnap := map[int]reflect.Value{}
+		if spec.has("intact") {
+			for a := range args {
+				if a != srcIdx {
+					ctxSnap[a] = Clone(args[a])
+				}
+			}
+		}
 		res, perr, pstack := safeCall(fn, args)
+		for a, snapc := range ctxSnap {
+			if ok, p := Equal(args[a], snapc); !ok {
+				addViol(Violation{Kind: "source_modified", Method: m.Name, ValueI: i, Detail: fmt.Sprintf("context argument %d modified at %s", a, p), Source: srcStr})
+			}
+		}
 		if perr != "" {
 			// a panic is the documented outcome only for the enum @panic action
 			expected := false
